@@ -41,6 +41,7 @@ KNOWN_ID_SPLIT = "misapplied-reply-after-channel-id-split-across-reads"
 def strategy(tp):
     nmax = int(tp.get("max_burst", 24))
     cut = st.one_of(st.tuples(st.just("id"), st.integers(1, 3)).map(list),         # after k bytes of the reply line (inside/at the end of the id)
+                    st.tuples(st.just("drip"), st.integers(0, 4)).map(list),       # one byte per write for the id and the k bytes after it
                     st.tuples(st.just("abs"), st.integers(0, 80)).map(list),      # k bytes after "<id> "
                     st.tuples(st.just("end"), st.integers(0, 3)).map(list))       # k bytes before the end of the line (inside CRLF ...)
     reply = st.fixed_dictionaries({
@@ -59,7 +60,7 @@ def strategy(tp):
     return st.fixed_dictionaries({
         "mode": st.sampled_from(["rw-c0", "rw-c8", "rw-c8", "rw-c40", "rw-c40", "xacl-c6"]),
         "fresh": st.booleans(),
-        "id_split": st.sampled_from([False, False, False, True]),   # allows cuts before the space that follows the channel id
+        "id_split": st.sampled_from([False, True, False, True]),   # allows cuts before the space that follows the channel id
         "replies": st.one_of(st.lists(reply, min_size=1, max_size=nmax), st.lists(reply, min_size=5, max_size=nmax), st.lists(reply, min_size=12, max_size=nmax)),
         "order": st.lists(st.integers(0, 1000), min_size=nmax, max_size=nmax),
         "extras": st.lists(extra, min_size=0, max_size=3),
@@ -149,6 +150,10 @@ def fragments(line, idlen, cuts, allow_id_split):
     """cut positions -> (segment sizes, first write ends before the space after the id?)"""
     pos = set()
     for kind, k in cuts:
+        if kind == "drip":
+            if idlen and allow_id_split:
+                pos.update(range(1, min(len(line), idlen + 1 + k)))
+            continue
         if kind == "id":
             p = k
             if idlen and p <= idlen and not allow_id_split:
@@ -166,7 +171,7 @@ def fragments(line, idlen, cuts, allow_id_split):
     for p in pts:
         segs.append(p - last)
         last = p
-    return segs, bool(idlen and pts and pts[0] <= idlen)
+    return segs, (len([p for p in pts if p <= idlen]) if idlen else 0)
 
 
 class Client(threading.Thread):
@@ -362,6 +367,8 @@ def _run(env, inst, sc, r):
         if split_id:
             suspect_split[0] = True
             r.label("first-write-ends-before-the-space-after-the-channel-id")
+            if split_id > 1:
+                r.label("channel-id-needs-more-bytes-on-two-or-more-consecutive-reads")
         if segs:
             fragmented += 1
         if q.seq < last_seq:
